@@ -421,6 +421,25 @@ fn expect(c: &Case, sp: &str, accept: &BTreeMap<String, bool>) -> Expect {
     Expect { pair, dropins, null }
 }
 
+/// ids (of `toks`, comma separated, `B` / `-` ignored) whose file does not lie under any segment of `sp`: C17, a creation
+/// reads nothing outside ITS arguments
+fn outside_reach(c: &Case, sp: &str, toks: &str) -> Vec<String> {
+    let prefixes: Vec<String> = sp.split(':').filter_map(|seg| {
+        if seg.is_empty() { Some(format!("{}/", c.cwd)) } else { seg.strip_prefix("/R/").map(|r| format!("{}/", r.trim_end_matches('/'))) }
+    }).collect();
+    let mut bad = vec![];
+    for t in toks.split(',') {
+        if let Ok(k) = t.parse::<u32>() {
+            if let Some((_, p)) = c.tries.iter().find(|(id, _)| *id == k) {
+                if !prefixes.iter().any(|pre| p.starts_with(pre)) {
+                    bad.push(format!("{}@{}", k, p));
+                }
+            }
+        }
+    }
+    bad
+}
+
 /// the search path `chewing_new()` / `chewing_new2(NULL, …)` uses (symbolic), None when it leaves the temp dir
 fn effective_sp(c: &Case) -> String {
     if !c.sys_null {
@@ -512,25 +531,33 @@ fn worker(seed: u64, thorough: bool, from: usize) {
         say(&format!("sysl load {} {} => {}", fs, hx(&c.sp), o));
         let want = match &ex.pair { Ok(v) => format!("ok {},{}", v[0], v[1]), Err(e) => e.to_string() };
         if o != want {
-            say(&format!("!oracle C12 new system-dictionary-pair case={} sp={} observed={} expected={} (first segment holding BOTH word.dat and tsi.dat; an unreadable file is an error)", i, hx(&c.sp), o.replace(' ', "_"), want.replace(' ', "_")));
+            say(&format!("!oracle C12 new system-dictionary-pair case={} sp={} observed={} expected={} (first segment holding BOTH word.dat and tsi.dat; an unreadable file is an error) tree={}", i, hx(&c.sp), o.replace(' ', "_"), want.replace(' ', "_"), fs));
+        }
+        let bad = outside_reach(c, &c.sp, o.trim_start_matches("ok "));
+        if !bad.is_empty() {
+            say(&format!("!oracle C17 new loader-read-outside-its-search-path case={} sp={} files={} tree={}", i, hx(&c.sp), bad.join(","), fs));
         }
         let o = guarded(|| match loader().load_drop_in() { Ok(d) => ids_of(&d), Err(e) => load_err(&e).into() });
         say(&format!("sysl dropin {} {} => {}", fs, hx(&c.sp), o));
+        let bad = outside_reach(c, &c.sp, &o);
+        if !bad.is_empty() {
+            say(&format!("!oracle C17 new loader-read-outside-its-search-path case={} sp={} files={} tree={}", i, hx(&c.sp), bad.join(","), fs));
+        }
         let want = if ex.dropins.is_empty() { "-".to_string() } else { ex.dropins.iter().map(|k| k.to_string()).collect::<Vec<_>>().join(",") };
         if o != want {
-            say(&format!("!oracle C12 new drop-in-order-or-skip case={} sp={} observed={} expected={} (segments in search order, names in byte order, a file that does not open is skipped)", i, hx(&c.sp), o, want));
+            say(&format!("!oracle C12 new drop-in-order-or-skip case={} sp={} observed={} expected={} (segments in search order, names in byte order, a file that does not open is skipped) tree={}", i, hx(&c.sp), o, want, fs));
         }
         let texts: Vec<&[u8]> = c.nodes.iter().filter(|(p, _)| p.ends_with("swkb.dat")).filter_map(|(_, n)| if let Node::File(b, _, _) = n { Some(&b[..]) } else { None }).collect();
         let probes = probes_of(&texts);
         let ptok = probes.iter().map(|c| (*c as u32).to_string()).collect::<Vec<_>>().join(",");
         let o = guarded(|| match loader().load_abbrev() { Ok(t) => abbrev_obs(&t, &probes), Err(e) => load_err(&e).into() });
         if o == "panic" {
-            say(&format!("!oracle C12 new swkb.dat-parser-panicked case={} sp={}", i, hx(&c.sp)));
+            say(&format!("!oracle C12 new swkb.dat-parser-panicked case={} sp={} tree={}", i, hx(&c.sp), fs));
         }
         say(&format!("sysl abbrev {} {} {} => {}", fs, hx(&c.sp), ptok, o));
         let o = guarded(|| match loader().load_symbol_selector() { Ok(s) => symbols_obs(s), Err(e) => load_err(&e).into() });
         if o == "panic" {
-            say(&format!("!oracle C12 new symbols.dat-parser-panicked case={} sp={}", i, hx(&c.sp)));
+            say(&format!("!oracle C12 new symbols.dat-parser-panicked case={} sp={} tree={}", i, hx(&c.sp), fs));
         }
         say(&format!("sysl symbols {} {} => {}", fs, hx(&c.sp), o));
         // C17: writing OUTSIDE the searched directories changes nothing (Z is never on the path; a new directory Y)
@@ -543,7 +570,7 @@ fn worker(seed: u64, thorough: bool, from: usize) {
             let _ = std::fs::write(root.join("Z/symbols.dat"), "Q=q\n");
             let after = guarded(|| format!("{:?} / {:?}", loader().load().map(|d| ids_of(&d)).map_err(|e| load_err(&e)), loader().load_drop_in().map(|d| ids_of(&d)).map_err(|e| load_err(&e))));
             if before != after {
-                say(&format!("!oracle C17 new creation-not-local case={} sp={} before={} after={} (files written outside the search path changed the result)", i, hx(&c.sp), before.replace(' ', "_"), after.replace(' ', "_")));
+                say(&format!("!oracle C17 new creation-not-local case={} sp={} before={} after={} (files written outside the search path changed the result) tree={}", i, hx(&c.sp), before.replace(' ', "_"), after.replace(' ', "_"), fs));
             }
             let _ = std::fs::remove_dir_all(root.join("Y"));
             let _ = std::fs::remove_file(root.join("Z/dictionary.d/zz.dat"));
@@ -636,7 +663,13 @@ fn worker(seed: u64, thorough: bool, from: usize) {
             say(&format!("{} => {}", lhs, obs));
             // oracle: NULL exactly when a path argument is not UTF-8 or the user dictionary cannot be loaded
             if (obs == "null") != ex.null {
-                say(&format!("!oracle C12 new creation-null-mismatch case={} user-kind={} sys-not-utf8={} observed={} expected-null={}", i, c.user_kind, c.sys_not_utf8, obs.split(' ').next().unwrap(), ex.null));
+                say(&format!("!oracle C12 new creation-null-mismatch case={} user-kind={} sys-not-utf8={} observed={} expected-null={} record={}", i, c.user_kind, c.sys_not_utf8, obs.split(' ').next().unwrap(), ex.null, lhs));
+            }
+            if obs.starts_with("ok ") {
+                let bad = outside_reach(c, &esp, obs.split(' ').nth(1).unwrap());
+                if !bad.is_empty() {
+                    say(&format!("!oracle C17 new creation-read-outside-its-arguments case={} search-path={} files={} record={}", i, hx(&esp), bad.join(","), lhs));
+                }
             }
             if obs != "null" && !ex.null {
                 let mut want: Vec<u32> = match &ex.pair { Ok(v) => v.clone(), Err(_) => vec![] };
@@ -654,7 +687,7 @@ fn worker(seed: u64, thorough: bool, from: usize) {
                 let got_set: std::collections::BTreeSet<&str> = got.split(',').collect();
                 let want_set: std::collections::BTreeSet<&str> = want.split(',').collect();
                 if got_set != want_set {
-                    say(&format!("!oracle C12 new context-dictionaries case={} sp={} observed={} expected={} (B = built-in fall-back when no valid word.dat+tsi.dat pair; every drop-in that opens is loaded)", i, hx(&esp), got, want));
+                    say(&format!("!oracle C12 new context-dictionaries case={} sp={} observed={} expected={} (B = built-in fall-back when no valid word.dat+tsi.dat pair; every drop-in that opens is loaded) record={}", i, hx(&esp), got, want, lhs));
                 }
             }
         }
@@ -808,7 +841,7 @@ fn main() {
                         let lhs = pending.take().unwrap_or_else(|| format!("sysl crash {}", i));
                         n_abort += 1;
                         out.rec(&format!("{} => abort", lhs));
-                        out.oracle_fail("C12", "new", &format!("context-creation-aborted-the-process case={} status={:?} record={}", i, st, lhs.chars().take(3000).collect::<String>()));
+                        out.oracle_fail("C12", "new", &format!("context-creation-aborted-the-process case={} status={:?} record={}", i, st, lhs));
                         from = i + 1;
                     }
                     break;
@@ -820,7 +853,7 @@ fn main() {
                     let lhs = pending.take().unwrap_or_else(|| format!("sysl crash {}", i));
                     n_hang += 1;
                     out.rec(&format!("{} => hang", lhs));
-                    out.oracle_fail("C12", "new", &format!("context-creation-hung case={} record={}", i, lhs.chars().take(3000).collect::<String>()));
+                    out.oracle_fail("C12", "new", &format!("context-creation-hung case={} record={}", i, lhs));
                     from = i + 1;
                     break;
                 }
